@@ -44,6 +44,9 @@ def build_next(fns):
     for need in ("minimum_chunk", "maximum_chunk", "cur_chunk_len"):
         if need not in fld:
             raise LookupError("Chunker field %s not found" % need)
+    symex.Sym.CONSTS = symex.const_table([os.path.join(REPO, "deduplication/src/chunking.rs")])
+    if "HASH_WINDOW_SIZE" not in symex.Sym.CONSTS:
+        raise LookupError("HASH_WINDOW_SIZE not found in chunking.rs")
     models = dict(symex.STD_MODELS)
     s = symex.Sym(f, prefix="nx.", models=models, max_visits=1)
     # next_match: bind the Option's discriminant and payload to fresh symbols with the contract above
@@ -110,7 +113,7 @@ def build_next(fns):
                      base + [mk_not("(or (bvuge (bvadd (bvadd %s %s) %s) %s) (= %s %s))" % (cur0, st, bvconst(65, 64), mn, st, n))])
             sc.query("hashing never reads beyond the maximum chunk size %s" % tag, base + [mk_not("(bvule (bvadd %s %s) %s)" % (cur0, en, mx))])
             sc.query("scanning starts where the skip ended, no byte is scanned twice %s" % tag,
-                     base + [mk_not("(or (= %s %s) (= (bvadd (bvadd %s %s) %s) %s))" % (st, bvconst(0, 64), cur0, st, bvconst(65, 64), mn))])
+                     base + [mk_not("(or (= %s %s) (= %s %s) (= (bvadd (bvadd %s %s) %s) %s))" % (st, bvconst(0, 64), st, n, cur0, st, bvconst(65, 64), mn))])
             if made:
                 sc.query("a content-defined cut consumes exactly up to the reported boundary; otherwise the cut is at the maximum or the final flush %s" % tag,
                          base + [mk_not("(or (and %s (= %s (bvadd %s %s))) (= (bvadd %s %s) %s) (= %s %s))" % (found, consumed, st, b, cur0, consumed, mx, consumed, n))])
